@@ -1,4 +1,5 @@
 import AwProofs.Lemmas.QueryInterp
+import AwProofs.Lemmas.PipelineErrors
 import AwModel.Query.RegistryGen
 /-!
 # C17 — any query text either parses or is rejected with a query error, and terminates
@@ -102,12 +103,29 @@ theorem resolve_error_kind (apply : Apply) :
       · rw [callBuiltin_func h] at herr
         cases herr; exact Or.inl ⟨m, rfl⟩
 
-/-- the whole run: if the builtin bodies raise only query errors, `query()` yields a value or an
+/-- the whole run: if the builtin bodies raise only query errors (or `TypeError`, which the call site converts: `ApplyQ`),
+    `query()` yields a value or an
     error of the query-error family (parse / interpret / function) — for every text, every
     environment, the generated registry -/
 theorem run_error_kind (apply : Apply) (hA : ApplyQ apply) (env : Ns) (text : Str) (e : Err)
     (h : runQuery Registry.registry apply env text = .error e) : IsQueryErr e :=
   runQuery_qerr hA env text e h
+
+/-- … and with the builtin bodies the model has (`Pipeline.fullApply`: the three datastore readers over any
+    read interface whose reads of listed buckets succeed, 14 `q2_*` wrappers over the transform models): whatever
+    the text, `query()` yields a value or an error of the query-error family, provided the remaining bodies
+    (`other`: the regex/URL builtins, and arguments that are not event lists) raise only query errors or
+    `TypeError`. The `TypeError` of an unhashable merge key is inside the claim: the call site converts it. -/
+theorem run_error_kind_with_bodies (r : Reads Aw.Group.Data) (hr : AwProofs.PipelineErrors.ReadsTotal r) (S E : Int)
+    (other : Apply) (ho : ApplyQ other) (env : Ns) (text : Str) (e : Err)
+    (h : runQuery Registry.registry (Aw.Query.Pipeline.fullApply r S E other) env text = .error e) :
+    IsQueryErr e :=
+  run_error_kind _ (AwProofs.PipelineErrors.fullApply_applyQ r S E other hr ho) env text e h
+
+/-- the hypothesis on the reads holds of the sqlite and memory store models in every state -/
+theorem reads_of_listed_buckets_succeed (s : Aw.Store.Sqlite.St Aw.Group.Data) (m : Aw.Store.Memory.St Aw.Group.Data) :
+    AwProofs.PipelineErrors.ReadsTotal (Reads.ofSqlite s) ∧ AwProofs.PipelineErrors.ReadsTotal (Reads.ofMemory m) :=
+  ⟨AwProofs.PipelineErrors.readsTotal_ofSqlite s, AwProofs.PipelineErrors.readsTotal_ofMemory m⟩
 
 /-- a passing type check is exactly the absence of a mismatching position -/
 theorem typecheck_ok_iff (ps : List Param) (as : List Val) :
